@@ -206,8 +206,30 @@ def part_spec(p, sp=None):
             # shorthand keys are recognised by their lower-case prefix
             pref, _, rest = k.partition(".")
             out[pref.lower() + "." + rest] = v
-        else:
-            out[name] = cond_spec(c, sp)
+            return
+        # an and-combination of leaves (left spine): several dotted shorthands side by side are and-ed in the
+        # order they are written
+        spine = []
+        t = c
+        while isinstance(t, Op) and t.op == "and" and isinstance(t.r, Leaf) and not t.same:
+            spine.append(t.r)
+            t = t.l
+        # (only when this is the part's sole condition slot: with a second slot the parser's association order,
+        #  ((other & c1) & c2), has no API-built counterpart that the statements name)
+        sole = sum(not isinstance(simp(x), Null) for x in (p.key, p.index, p.value)) == 1
+        # (text routes - force_names - may reorder mapping keys: two operands commute, three do not)
+        if sole and spine and isinstance(t, Leaf) and (len(spine) == 1 or not sp.force_names) and sp.coin("multi-shorthand", 60):
+            spine.append(t)
+            spine.reverse()
+            items = []
+            for lf in spine:
+                k, v = next(iter(leaf_spec(lf, sp).items()))
+                pref, _, rest = k.partition(".")
+                items.append((pref.lower() + "." + rest, v))
+            if len({k for k, _ in items}) == len(items) and not any(k in out for k, _ in items):
+                out.update(items)
+                return
+        out[name] = cond_spec(c, sp)
 
     if p.ctype == "mol" and getattr(p, "generic", False) and not isinstance(simp(p.key), Null):
         out["condition"] = cond_spec(simp(p.key), sp)
